@@ -391,6 +391,15 @@ def replay(ctx, path):
     try:
         obj = json.loads(txt)
         rep = obj.get("replay", obj)
+        if not isinstance(rep, dict) or not ("behaviour" in rep or "steps" in rep):
+            # findings of the real-time UDP scenarios carry no behaviour: the scenarios are fixed, re-run them
+            udp = lib.run_go(ctx, "client", "TestVerifX02UDP", timeout=1200, harness_dirs=["client"], tag="udp", extra_args=["-v"])
+            for v in udp.get("violations", []):
+                print("REPLAY-RESULT violation key=%s what=%s" % (v.get("key"), v.get("what")), flush=True)
+                if v.get("key") in KEYS:
+                    ctx.violations.append(v)
+            return lib.finish(ctx, LEVEL, {"evaluations": udp.get("evaluations", 0), "distinct_nontrivial": udp.get("distinct_nontrivial", 0),
+                                           "rule": "RouteUDP scenarios re-run", "samples": [], "traces_validated_against_impl": 0, "exhaustive": False}, ASSUME)
         behaviours = [rep["behaviour"]] if "behaviour" in rep else [rep]
     except json.JSONDecodeError:
         behaviours = [json.loads(l) for l in txt.splitlines() if l.strip()]
